@@ -19,3 +19,8 @@ claim("C10", "sibling-agreement of initialisers (witness TU vs function, symboli
       "Decides for every geometry at once (symbolic basep, base_len, msg_len): the static initialiser and messageq_init assign every field the same expression with depth = floor(base_len/msg_len); send- and receive-side advances are the wrapped successor modulo queue_len; claim/receive address basep + index*msg_len without narrowing and send applies the exact inverse without narrowing; one 32-bit flag bit per slot with empty() testing the bit receive() tests; the library never dereferences the caller's message memory. Necessary conditions of C10.",
       "Does NOT decide FIFO order over all sequential operation histories. Trusted: clang 14 front end, ir2json, path enumerator; queue_len in [1,255].",
       "DESIGN.md section 2 C10")
+claim("C12", "per-path symbolic analysis of every pack/unpack function (cursor/guard/access offsets) + ByteLane abstract domain for byte order",
+      "proof",
+      "For every implemented function of pack.c, on every path and for every buffer size at once: single advance by the item size before the test (sticky, always counted), guard exactly `advanced cursor <= endp`, all accesses inside the item on fitting paths and none otherwise, zero / zero-fill / NULL-skip failure results, byte order decided lane by lane. All obligations must be discharged; each is a statement about all inputs of that function.",
+      "Scope limit is the property's own: requested bytes below 2^31. Trusted: clang 14 front end, ir2json, path enumerator (no aliasing between the rf_pack_t and the buffers), ByteLane transfer functions.",
+      "DESIGN.md section 2 C12")
